@@ -38,8 +38,30 @@ fn classify(d: &TagDisc) -> Option<&'static str> {
     }
 }
 
+/// what stands between the two keywords of the TagDefault (`EXPLICIT TAGS`) and of the
+/// ExtensionDefault: any white space and comments (X.680 12.1.2); real modules break the line there
+pub const HEADER_LAYOUTS: [&str; 6] = [" ", "\n", "  ", "\t", " -- default\n", " /* default */ "];
+
+/// the layout the lattice is printed with (it is run once per layout); random module sets take
+/// theirs from their text
+static LATTICE_LAYOUT: std::sync::atomic::AtomicUsize = std::sync::atomic::AtomicUsize::new(usize::MAX);
+
+fn relayout_header(text: &str, layout: usize) -> String {
+    let sep = HEADER_LAYOUTS[layout % HEADER_LAYOUTS.len()];
+    let mut out = text.to_string();
+    for kw in ["EXPLICIT", "IMPLICIT", "AUTOMATIC"] {
+        out = out.replace(&format!("{kw} TAGS"), &format!("{kw}{sep}TAGS"));
+    }
+    out.replace("EXTENSIBILITY IMPLIED", &format!("EXTENSIBILITY{sep}IMPLIED"))
+}
+
 fn observe(ms: &ModuleSet) -> Result<(Vec<TagDisc>, structure::TagStats), &'static str> {
     let text = print(ms);
+    let layout = match LATTICE_LAYOUT.load(std::sync::atomic::Ordering::SeqCst) {
+        usize::MAX => (crate::ev::hash_str(&text) % 11) as usize, // 6..10: the usual single blank
+        l => l,
+    };
+    let text = if layout < HEADER_LAYOUTS.len() { relayout_header(&text, layout) } else { text };
     let out = comp::compile_rasn1(&text, &Cfg::default());
     let c = match &out {
         Outcome::Ok(c) => c,
@@ -222,7 +244,7 @@ fn point_set(all: &ModuleSet, p: &Point) -> ModuleSet {
     ModuleSet { modules: vec![Module { name: m.name.clone(), tagging: m.tagging, ext_implied: false, imports: vec![], items }] }
 }
 
-fn run_lattice(ctx: &mut Ctx) -> Result<(), String> {
+fn run_lattice(ctx: &mut Ctx, layout: usize) -> Result<(), String> {
     let (ms, points, illegal) = lattice();
     ctx.extra.insert("lattice_points".into(), json!(points.len()));
     ctx.extra.insert("lattice_points_illegal_in_x680".into(), json!(illegal));
@@ -249,8 +271,9 @@ fn run_lattice(ctx: &mut Ctx) -> Result<(), String> {
     }
     let mut reported: BTreeMap<String, usize> = BTreeMap::new();
     for p in &points {
-        let id = format!("{:?}/{:?}/{:?}/{}/{}", p.default, p.keyword, p.class, p.position, p.kind);
+        let id = format!("{:?}/{:?}/{:?}/{}/{}/header-layout-{layout}", p.default, p.keyword, p.class, p.position, p.kind);
         ctx.case(&id, true);
+        ctx.class(&format!("lattice:header-layout:{:?}", HEADER_LAYOUTS[layout]));
         ctx.class(&format!("lattice:default:{:?}", p.default));
         ctx.class(&format!("lattice:position:{}", p.position));
         ctx.class(&format!("lattice:kind:{}", p.kind));
@@ -273,7 +296,7 @@ fn run_lattice(ctx: &mut Ctx) -> Result<(), String> {
             ctx.fail(Failure {
                 finding,
                 what: format!("lattice point {id}: {} at {}: {}", d.clause, d.at, d.detail),
-                replay: json!({"kind": "c03", "point": p, "model_json": serde_json::to_string(&small).unwrap(), "sources": [{"name": "point.asn", "text": print(&small)}], "observed": d}),
+                replay: json!({"kind": "c03", "point": p, "header_layout": layout, "model_json": serde_json::to_string(&small).unwrap(), "sources": [{"name": "point.asn", "text": relayout_header(&print(&small), layout)}], "observed": d}),
             });
         }
     }
@@ -401,7 +424,7 @@ fn compof_leg(ctx: &mut Ctx, tier: Tier, seed: u64) {
 pub fn run(tier: Tier, seed: u64, replay: Option<String>) -> i32 {
     let mut ctx = Ctx::new("C03", tier, seed);
     ctx.max_replays = 12;
-    ctx.rule = "exhaustive lattice: module default {EXPLICIT, IMPLICIT, AUTOMATIC, none} x keyword {none, IMPLICIT, EXPLICIT} x class {context, APPLICATION, \
+    ctx.rule = "exhaustive lattice: header layout {blank, line break, two blanks, tab, `--` comment, `/* */` comment between the keywords of the TagDefault} x module default {EXPLICIT, IMPLICIT, AUTOMATIC, none} x keyword {none, IMPLICIT, EXPLICIT} x class {context, APPLICATION, \
                 PRIVATE, UNIVERSAL} x position {type assignment, SEQUENCE component, SET component, CHOICE alternative, component of an anonymous nested type at \
                 depth 2 and 3, SEQUENCE OF element, SET OF element} x tagged type {primitive, referenced SEQUENCE, referenced CHOICE, inline CHOICE, open type} \
                 (IMPLICIT on CHOICE/open type is illegal and left out, counted); plus random module sets of the §3 generator with tags at every level and all \
@@ -435,13 +458,22 @@ pub fn run(tier: Tier, seed: u64, replay: Option<String>) -> i32 {
         }
     }
     if let Some(p) = replay {
+        let v: Value = serde_json::from_str(&std::fs::read_to_string(&p).unwrap_or_default()).unwrap_or_default();
+        if let Some(l) = v["header_layout"].as_u64() {
+            LATTICE_LAYOUT.store(l as usize, std::sync::atomic::Ordering::SeqCst);
+        }
         let r = replay_generic(&mut ctx, &grun, "c03", &p);
         let code = ctx.finish();
         return if r == 2 { 2 } else { code };
     }
-    if let Err(e) = run_lattice(&mut ctx) {
-        eprintln!("{e}");
-        return 2;
+    for layout in 0..HEADER_LAYOUTS.len() {
+        LATTICE_LAYOUT.store(layout, std::sync::atomic::Ordering::SeqCst);
+        let r = run_lattice(&mut ctx, layout);
+        LATTICE_LAYOUT.store(usize::MAX, std::sync::atomic::Ordering::SeqCst);
+        if let Err(e) = r {
+            eprintln!("{e}");
+            return 2;
+        }
     }
     ctx.exhaustive = true;
     run_generic(&mut ctx, &grun, "c03");
